@@ -119,14 +119,14 @@ MUTANTS += [
          new="        return self._are_suboperations_cached(operation, created_files)"),
     # ---- C10
     dict(name='c10_failed_output_not_removed', props=['C10'], file=FB,
-         old="        self._build_dirs.error_building_file(filename)\n        FileBuilder._try_to_remove_file(filename)\n        logger.warning(",
+         old="        FileBuilder._try_to_remove_file(filename)\n        self._build_dirs.error_building_file(filename)\n        logger.warning(",
          new="        self._build_dirs.error_building_file(filename)\n        logger.warning("),
     dict(name='c10_error_dirs_not_removed_at_commit', props=['C10'], file=FB,
          old="        dirs_to_remove = set(norm_cased_error_created_dirs)\n        for dir_ in self._old_cache.created_dirs():",
          new="        dirs_to_remove = set()\n        for dir_ in self._old_cache.created_dirs():"),
     dict(name='c10_no_error_building_file_on_func_failure', props=['C10'], file=FB,
-         old="        operation.raised = True\n        self._build_dirs.error_building_file(filename)\n        FileBuilder._try_to_remove_file(filename)",
-         new="        operation.raised = True\n        FileBuilder._try_to_remove_file(filename)"),
+         old="        FileBuilder._try_to_remove_file(filename)\n        self._build_dirs.error_building_file(filename)\n        logger.warning(",
+         new="        FileBuilder._try_to_remove_file(filename)\n        logger.warning("),
     dict(name='c10_make_dirs_no_undo', props=['C10'], file=FB,
          old="            FileBuilder._remove_empty_dirs(made_dirs)\n            raise",
          new="            raise"),
